@@ -28,20 +28,155 @@ pub proof fn lemma_visited_next<K, V>(h: Seq<(&K, &V)>, all: Seq<(&K, &V)>)
     }
 }
 
-// the result of collecting `(log, (None, Some(height)))` over all logs of an author
-pub proof fn lemma_full_ranges<L>(m: Map<L, SeqNum>, rem: Seq<(&L, &SeqNum)>, s: Seq<(L, (Option<SeqNum>, Option<SeqNum>))>, r: Map<L, (Option<SeqNum>, Option<SeqNum>)>)
-    requires
-        entries_of(rem, m),
-        s.len() == rem.len(),
-        forall|i: int| 0 <= i < s.len() ==> #[trigger] s[i] == (*rem[i].0, (None::<SeqNum>, Some(*rem[i].1))),
-        r.dom() =~= m.dom(),
-        forall|i: int| 0 <= i < s.len() ==> r[(#[trigger] s[i]).0] == s[i].1,
-    ensures
-        forall|l: L| m.contains_key(l) ==> #[trigger] r[l] == (None::<SeqNum>, Some(m[l])),
+pub proof fn lemma_visited_all<K, V>(rem: Seq<(&K, &V)>, m: Map<K, V>)
+    requires entries_of(rem, m),
+    ensures covers(rem, m),
 {
-    assert forall|l: L| m.contains_key(l) implies #[trigger] r[l] == (None::<SeqNum>, Some(m[l])) by {
-        let i = choose|i: int| 0 <= i < rem.len() && *(#[trigger] rem[i]).0 == l && *rem[i].1 == m[l];
-        assert(s[i].0 == l);
+    assert forall|k: K| visited(rem, k) <==> #[trigger] m.contains_key(k) by {
+        if visited(rem, k) {
+            let i = choose|i: int| 0 <= i < rem.len() && *(#[trigger] rem[i]).0 == k;
+        }
+        if m.contains_key(k) {
+            let i = choose|i: int| 0 <= i < rem.len() && *(#[trigger] rem[i]).0 == k && *rem[i].1 == m[k];
+        }
+    }
+}
+
+pub proof fn lemma_outer_init<A, L>(local: Map<A, BTreeMap<L, SeqNum>>, remote: Map<A, BTreeMap<L, SeqNum>>, needs: Map<A, BTreeMap<L, Rng>>, h: Seq<(&A, &BTreeMap<L, SeqNum>)>)
+    requires needs == Map::<A, BTreeMap<L, Rng>>::empty(), h.len() == 0,
+    ensures outer_inv(local, remote, needs, h),
+{
+    reveal(outer_inv);
+}
+
+// author unknown to the remote: all its logs are needed in full
+pub proof fn lemma_outer_unknown<A, L>(local: Map<A, BTreeMap<L, SeqNum>>, remote: Map<A, BTreeMap<L, SeqNum>>,
+    old: Map<A, BTreeMap<L, Rng>>, new: Map<A, BTreeMap<L, Rng>>, h: Seq<(&A, &BTreeMap<L, SeqNum>)>, h2: Seq<(&A, &BTreeMap<L, SeqNum>)>, key: A)
+    requires
+        outer_inv(local, remote, old, h),
+        next_key(h, h2, key),
+        local.contains_key(key),
+        !remote.contains_key(key),
+        new.contains_key(key),
+        forall|a: A| a != key ==> (#[trigger] new.contains_key(a) == old.contains_key(a)),
+        forall|a: A| a != key && #[trigger] old.contains_key(a) ==> new[a] == old[a],
+        forall|l: L| #[trigger] new[key]@.contains_key(l) <==> local[key]@.contains_key(l),
+        forall|l: L| local[key]@.contains_key(l) ==> #[trigger] new[key]@[l] == (None::<SeqNum>, Some(local[key]@[l])),
+    ensures
+        outer_inv(local, remote, new, h2),
+{
+    reveal(outer_inv);
+    assert forall|a: A, l: L| #[trigger] rget(new, a, l) == (if visited(h2, a) { expected(local, remote, a, l) } else { None }) by {
+        if a == key {
+        } else {
+            assert(rget(new, a, l) == rget(old, a, l));
+        }
+    }
+    assert forall|a: A| #[trigger] new.contains_key(a) implies visited(h2, a) by {
+        if a != key { assert(old.contains_key(a)); }
+    }
+}
+
+// author known with identical logs: nothing needed
+pub proof fn lemma_outer_equal<A, L>(local: Map<A, BTreeMap<L, SeqNum>>, remote: Map<A, BTreeMap<L, SeqNum>>,
+    needs: Map<A, BTreeMap<L, Rng>>, h: Seq<(&A, &BTreeMap<L, SeqNum>)>, h2: Seq<(&A, &BTreeMap<L, SeqNum>)>, key: A)
+    requires
+        outer_inv(local, remote, needs, h),
+        next_key(h, h2, key),
+        local.contains_key(key), remote.contains_key(key), local[key]@ == remote[key]@,
+    ensures
+        outer_inv(local, remote, needs, h2),
+{
+    reveal(outer_inv);
+    assert forall|a: A, l: L| #[trigger] rget(needs, a, l) == (if visited(h2, a) { expected(local, remote, a, l) } else { None }) by {
+        if a == key { assert(!needs.contains_key(key)); }
+    }
+}
+
+pub proof fn lemma_inner_init<A, L>(local: Map<A, BTreeMap<L, SeqNum>>, remote: Map<A, BTreeMap<L, SeqNum>>,
+    needs: Map<A, BTreeMap<L, Rng>>, h: Seq<(&A, &BTreeMap<L, SeqNum>)>, key: A, g: Seq<(&L, &SeqNum)>)
+    requires outer_inv(local, remote, needs, h), !visited(h, key), g.len() == 0,
+    ensures inner_inv(local, remote, needs, h, key, g),
+{
+    reveal(outer_inv);
+    reveal(inner_inv);
+    assert forall|a: A, l: L| #[trigger] rget(needs, a, l) == (if a == key { if visited(g, l) { expected(local, remote, a, l) } else { None } } else if visited(h, a) { expected(local, remote, a, l) } else { None }) by {
+        if a == key { assert(!needs.contains_key(key)); }
+    }
+}
+
+// a log the remote needs: the recorded range is exactly the expected one
+pub proof fn lemma_inner_insert<A, L>(local: Map<A, BTreeMap<L, SeqNum>>, remote: Map<A, BTreeMap<L, SeqNum>>,
+    old: Map<A, BTreeMap<L, Rng>>, new: Map<A, BTreeMap<L, Rng>>, h: Seq<(&A, &BTreeMap<L, SeqNum>)>, key: A,
+    g: Seq<(&L, &SeqNum)>, g2: Seq<(&L, &SeqNum)>, l: L, v: Rng)
+    requires
+        inner_inv(local, remote, old, h, key, g),
+        next_key(g, g2, l),
+        upd(old, new, key, l, v),
+        expected(local, remote, key, l) == Some(v),
+    ensures
+        inner_inv(local, remote, new, h, key, g2),
+{
+    reveal(inner_inv);
+    assert forall|a: A, l2: L| #[trigger] rget(new, a, l2) == (if a == key { if visited(g2, l2) { expected(local, remote, a, l2) } else { None } } else if visited(h, a) { expected(local, remote, a, l2) } else { None }) by {
+        if a == key {
+            if l2 == l {
+            } else {
+                assert(rget(new, a, l2) == rget(old, a, l2));
+            }
+        } else {
+            assert(rget(new, a, l2) == rget(old, a, l2));
+        }
+    }
+    assert forall|a: A| #[trigger] new.contains_key(a) implies visited(h, a) || a == key by {
+        if a != key { assert(old.contains_key(a)); }
+    }
+}
+
+// a log the remote does not need
+pub proof fn lemma_inner_skip<A, L>(local: Map<A, BTreeMap<L, SeqNum>>, remote: Map<A, BTreeMap<L, SeqNum>>,
+    needs: Map<A, BTreeMap<L, Rng>>, h: Seq<(&A, &BTreeMap<L, SeqNum>)>, key: A,
+    g: Seq<(&L, &SeqNum)>, g2: Seq<(&L, &SeqNum)>, l: L)
+    requires
+        inner_inv(local, remote, needs, h, key, g),
+        next_key(g, g2, l),
+        expected(local, remote, key, l) is None,
+    ensures
+        inner_inv(local, remote, needs, h, key, g2),
+{
+    reveal(inner_inv);
+    assert forall|a: A, l2: L| #[trigger] rget(needs, a, l2) == (if a == key { if visited(g2, l2) { expected(local, remote, a, l2) } else { None } } else if visited(h, a) { expected(local, remote, a, l2) } else { None }) by {
+    }
+}
+
+pub proof fn lemma_inner_done<A, L>(local: Map<A, BTreeMap<L, SeqNum>>, remote: Map<A, BTreeMap<L, SeqNum>>,
+    needs: Map<A, BTreeMap<L, Rng>>, h: Seq<(&A, &BTreeMap<L, SeqNum>)>, h2: Seq<(&A, &BTreeMap<L, SeqNum>)>, key: A, g: Seq<(&L, &SeqNum)>)
+    requires
+        inner_inv(local, remote, needs, h, key, g),
+        next_key(h, h2, key),
+        local.contains_key(key),
+        covers(g, local[key]@),
+    ensures
+        outer_inv(local, remote, needs, h2),
+{
+    reveal(inner_inv);
+    reveal(outer_inv);
+    assert forall|a: A, l: L| #[trigger] rget(needs, a, l) == (if visited(h2, a) { expected(local, remote, a, l) } else { None }) by {
+    }
+}
+
+pub proof fn lemma_outer_done<A, L>(local: Map<A, BTreeMap<L, SeqNum>>, remote: Map<A, BTreeMap<L, SeqNum>>,
+    needs: Map<A, BTreeMap<L, Rng>>, h: Seq<(&A, &BTreeMap<L, SeqNum>)>)
+    requires
+        outer_inv(local, remote, needs, h),
+        covers(h, local),
+    ensures
+        forall|a: A, l: L| rget(needs, a, l) == expected(local, remote, a, l),
+        forall|a: A| needs.contains_key(a) ==> local.contains_key(a),
+{
+    reveal(outer_inv);
+    assert forall|a: A, l: L| rget(needs, a, l) == expected(local, remote, a, l) by {
+        assert(rget(needs, a, l) == (if visited(h, a) { expected(local, remote, a, l) } else { None }));
     }
 }
 
